@@ -78,8 +78,11 @@ def c07() -> int:
     fsx(c, RES + ({"variant": "core", "split_base": True, "pairs": False, "name": "W-res/split-base"},), ("hivemc.bundles", "c07", {}), K=2 if quick else 3, H=7 if quick else 9,
         needs=["instr:Idle:ChargeBase:ChargingBase", "instr:ChargingStation:ChargeBase:ChargingStation|instr:Idle:ChargeBase:Idle"])
     fsx(c, ("hivemc.w_prec", "make", {}), ("hivemc.bundles", "c07", {}), K=2 if quick else 3, H=6 if quick else 8)
-    fsx(c, REQ + ({"requests": ["p0", "p1", "r2"], "name": "W-req/pooling"},), ("hivemc.bundles", "c07", {}), K=2 if quick else 3, H=8 if quick else 10, needs=["c07:pickup", "c07:dropoff"])
+    fsx(c, REQ + ({"requests": ["p0", "p1", "r2"], "name": "W-req/pooling", "prestart": ("p0", "p1")},), ("hivemc.bundles", "c07", {}), K=2 if quick else 3, H=8 if quick else 10, needs=["c07:pickup", "c07:dropoff"])
     auto_worlds(c, "c07", quick, needs=["c07:pickup", "c07:dropoff"])
+    from .enum_pooling import run as pooling_plans
+
+    pooling_plans(c, "C07")
     return c.finish()
 
 
@@ -99,9 +102,12 @@ def c03() -> int:
     fsx(c, REQ + ({},), ("hivemc.bundles", "c03", {}), K=3 if quick else 4, H=8 if quick else 10, needs=needs)
     fsx(c, REQ + ({"dispatcher": True},), ("hivemc.bundles", "c03", {}), K=3 if quick else 4, H=8 if quick else 10, needs=needs[:4])
     # requests that allow pooling (optional column of the request file), served by autonomous vehicles as one-request pooling trips
-    fsx(c, REQ + ({"requests": ["p0", "p1", "r2"], "name": "W-req/pooling"},), ("hivemc.bundles", "c03", {}), K=3 if quick else 4, H=8 if quick else 10,
+    fsx(c, REQ + ({"requests": ["p0", "p1", "r2"], "name": "W-req/pooling", "prestart": ("p0", "p1")},), ("hivemc.bundles", "c03", {}), K=3 if quick else 4, H=8 if quick else 10,
         needs=["c03:pickup", "c03:dropoff_later_step", "c03:instruction_to_pooling_vehicle_with_passengers", "default:DispatchTrip>ServicingPoolingTrip"])
     auto_worlds(c, "c03", quick, needs=["c03:pickup", "c03:dropoff_later_step"])
+    from .enum_pooling import run as pooling_plans
+
+    pooling_plans(c, "C03")
     bisim(c, REQ + ({"pairs": False},), K=1 if quick else 2, H=3 if quick else 4)
     return c.finish()
 
@@ -157,7 +163,10 @@ def c05() -> int:
     fsx(c, RES + ({"variant": "core", "gas": True, "prices": True, "mechs": ("thirsty", "small", "ice"), "name": "W-res/money"},),
         ("hivemc.bundles", "c05", {}), K=2 if quick else 3, H=7 if quick else 9, needs=needs)
     fsx(c, REQ + ({},), ("hivemc.bundles", "c05", {}), K=3 if quick else 4, H=8 if quick else 10, needs=["c05:fare"])
-    fsx(c, REQ + ({"requests": ["p0", "p1", "r2"], "name": "W-req/pooling"},), ("hivemc.bundles", "c05", {}), K=2 if quick else 3, H=8 if quick else 10, needs=["c05:fare"])
+    fsx(c, REQ + ({"requests": ["p0", "p1", "r2"], "name": "W-req/pooling", "prestart": ("p0", "p1")},), ("hivemc.bundles", "c05", {}), K=2 if quick else 3, H=8 if quick else 10, needs=["c05:fare"])
+    from .enum_pooling import run as pooling_plans
+
+    pooling_plans(c, "C05")
     auto_worlds(c, "c05", quick, extra={"prices": True}, needs=["c05:charge:ChargingBase:LEVEL_2", "c05:charge:ChargingStation:DCFC|c05:charge:ChargingStation:LEVEL_2", "c05:fare"])
     return c.finish()
 
@@ -174,7 +183,7 @@ def c06() -> int:
     fsx(c, GRID + ({"pairs": True},), ("hivemc.bundles", "c06", {}), K=2 if quick else 3, H=10 if quick else 12,
         needs=["c06:judged:DispatchStation", "c06:judged:DispatchBase", "c06:judged:Repositioning", "c06:judged:ServicingTrip", "c06:mid_link_split"])
     # requests that allow pooling (optional column of the request file), served by autonomous vehicles
-    fsx(c, REQ + ({"requests": ["p0", "p1", "r2"], "name": "W-req/pooling"},), ("hivemc.bundles", "c06", {}), K=2 if quick else 3, H=8 if quick else 10,
+    fsx(c, REQ + ({"requests": ["p0", "p1", "r2"], "name": "W-req/pooling", "prestart": ("p0", "p1")},), ("hivemc.bundles", "c06", {}), K=2 if quick else 3, H=8 if quick else 10,
         needs=["c06:judged:ServicingPoolingTrip"])
     # arrivals with a full battery / tank (small-battery v0 starts full)
     fsx(c, RES + ({"variant": "core", "mechs": ("small", "small", "quiet"), "v0_energy": 1.0, "name": "W-res/full"},), ("hivemc.bundles", "c06", {}), K=2, H=6 if quick else 8,
@@ -368,7 +377,7 @@ def c19() -> int:
     fsx(c, ("hivemc.w_log", "make_res", {"variant": "core", "gas": True, "prices": True, "mechs": ("thirsty", "small", "ice")}),
         ("hivemc.bundles", "c19", {}), K=2 if quick else 3, H=7 if quick else 9, needs=needs)
     fsx(c, ("hivemc.w_log", "make_req", {}), ("hivemc.bundles", "c19", {}), K=3 if quick else 4, H=8 if quick else 10, needs=["c19:pickup", "c19:dropoff"])
-    fsx(c, ("hivemc.w_log", "make_req", {"requests": ["p0", "p1", "r2"], "name": "W-req/pooling/log"}), ("hivemc.bundles", "c19", {}), K=2 if quick else 3, H=8 if quick else 10, needs=["c19:pickup"])
+    fsx(c, ("hivemc.w_log", "make_req", {"requests": ["p0", "p1", "r2"], "name": "W-req/pooling/log", "prestart": ("p0", "p1")}), ("hivemc.bundles", "c19", {}), K=2 if quick else 3, H=8 if quick else 10, needs=["c19:pickup"])
     auto_worlds(c, "c19", quick, make=("hivemc.w_log", "make_auto"), extra={"prices": True}, needs=["c19:pickup", "c19:dropoff", "c19:charge"])
     # end-to-end cross-check: scenarios loaded by load_scenario (handlers installed by the library), run linearly, whole-run sums
     from .enumrun import pmap
